@@ -37,6 +37,12 @@ def run(res, tier, seed):
         runner = corr.Runner(v)
         env = {"OMP_NUM_THREADS": "4"} if v["openmp"] else None
         engine.run_ops(res, "C12", names, seed, n, 260 if tier == "quick" else 500, runner=runner, env=env, tag="/cfg=" + v["name"])
+        if v["openmp"]:
+            # the parallel products exist only in this configuration; their block grid (multiples of 128 plus three
+            # remainder strips) must give the product the sequential routes give
+            mp = [nm for nm in ("mul_mp", "addmul_mp") if nm in ops.CATALOG]
+            engine.run_ops(res, "C12", mp, seed + 11, n, 420 if tier == "quick" else 700, runner=runner, env=env,
+                           tag="/mp/cfg=" + v["name"])
         # the cache-derived block size of this configuration (mzd.h: MIN(sqrt(4*L3)/2, 2048)) is the regime threshold AND,
         # in the recursive regimes, enters the split points of the triangular solves: systems just beyond it
         bs = min(int((4 * int(v["l3"])) ** 0.5) // 2, 2048)
